@@ -1,3 +1,60 @@
-From DI Require Import PyStr Deps.
-Theorem C14_placeholder : True. Proof. exact I. Qed.
-Print Assumptions C14_placeholder.
+(* C14 - Dependency fields parse to exactly the structure they spell (partial: the
+   theorems cover one alternative - name, optional "(operator version)", optional
+   "[architectures]" - under every white-space layout, its canonical spelling, the
+   round trip and the error clauses; the splitting of a field at commas and of a group
+   at "|" is decided by co-execution on rendered abstract fields). *)
+From Coq Require Import String.
+From Coq Require Import NArith List Bool.
+From DI Require Import Result PyStr Deps DepsGrammar DepsParseFacts.
+Import ListNotations.
+Open Scope N_scope.
+
+(* any well-formed alternative, rendered with any layout (spaces before "(" and "[", any white
+   space - line breaks included - inside the parentheses and brackets, the operator glued to
+   the version or not), parses to exactly its name, operator, version and architectures *)
+Theorem C14_parse_rendered_alternative : forall l a, wf_alt a -> wf_layout a l ->
+  parse_relationship (render_alt l a) = Ok (tree_alt a).
+Proof. exact parse_rendered_alt. Qed.
+Print Assumptions C14_parse_rendered_alternative.
+
+(* its string form is the canonical single-spaced spelling *)
+Theorem C14_str_canonical : forall a, rel_str (tree_alt a) = canonical_alt a.
+Proof. exact str_is_canonical. Qed.
+Print Assumptions C14_str_canonical.
+
+(* which parses back to an equal object *)
+Theorem C14_str_parse_roundtrip : forall a, wf_alt a ->
+  parse_relationship (rel_str (tree_alt a)) = Ok (tree_alt a).
+Proof. exact str_parse_roundtrip. Qed.
+Print Assumptions C14_str_parse_roundtrip.
+
+(* the reported names are exactly the names mentioned *)
+Theorem C14_names : forall a, rel_names (tree_alt a) = [g_name a].
+Proof. exact names_of_alt. Qed.
+Print Assumptions C14_names.
+
+Theorem C14_names_compose : forall rs,
+  rel_names (OrRel rs) = flat_map rel_names rs /\ rel_names (AndRel rs) = flat_map rel_names rs.
+Proof. intros rs. split; reflexivity. Qed.
+Print Assumptions C14_names_compose.
+
+(* a version clause with no comparison operator, or with nothing but an operator, raises ValueError *)
+Theorem C14_bad_clause_no_operator : forall n x, wf_name n -> wf_version x ->
+  parse_relationship (n ++ lit " (" ++ x ++ [41]) = Raise ValueError.
+Proof. exact bad_clause_no_operator. Qed.
+Print Assumptions C14_bad_clause_no_operator.
+
+Theorem C14_bad_clause_only_operator : forall n o, wf_name n -> wf_op o ->
+  parse_relationship (n ++ lit " (" ++ o ++ [41]) = Raise ValueError.
+Proof. exact bad_clause_only_operator. Qed.
+Print Assumptions C14_bad_clause_only_operator.
+
+Example C14_two_operators : parse_depends (lit "a (>= 1 << 2)") = Raise ValueError.
+Proof. vm_compute. reflexivity. Qed.
+
+Example C14_whole_field :
+  parse_depends (lit "libc6 (>=2.17)," ++ [10] ++ lit " python3:any (<< 3.12~) [!i386  linux-any] |python," ++ [9] ++ lit "g++") =
+  Ok (AndRel [VRel (lit "libc6") (lit ">=") (lit "2.17") [];
+              OrRel [VRel (lit "python3:any") (lit "<<") (lit "3.12~") [lit "!i386"; lit "linux-any"]; Rel (lit "python") []];
+              Rel (lit "g++") []]).
+Proof. vm_compute. reflexivity. Qed.
